@@ -307,3 +307,78 @@ Proof.
   vm_compute. repeat split.
 Qed.
 End C15_translated.
+
+(* ------------------------------------------------------------------------------------------ *)
+(* THE NESTING LIMIT (/repo daf82c9: `if (xgdep >= 7) { ex_show("global nesting too deep"); return 1; }` at the top of ec_glob;
+   ExDefs.ec_glob has the same guard).  coq/GlobDepthDefs.v instruments the interpreter (glob_loop, ec_glob, ec_at, ex_exec,
+   ex_main) with the trace of the depths it hands to lbuf_globset / lbuf_globget -- one entry for the marking loop, one per scan
+   `while (... !lbuf_globget(xb, i, xgdep))`, one for the final sweep of every global, nested ones included. *)
+From NV Require Import GenConsts GlobDepthDefs GlobDepth.
+
+(* the instrumented interpreter computes exactly what ExDefs computes *)
+Theorem C15_depth_trace_erasure : forall rvalid rfind filter readfile curpath,
+  (forall fuel ret ln s, fst (ex_exec_d rvalid rfind filter readfile curpath fuel ret ln s)
+                         = ex_exec rvalid rfind filter readfile curpath fuel ret ln s) /\
+  (forall n fuel s, fst (ex_main_d rvalid rfind filter readfile curpath n fuel s)
+                    = ex_main rvalid rfind filter readfile curpath n fuel s).
+Proof. exact (fun rvalid rfind filter readfile curpath =>
+  conj (ex_exec_d_erase rvalid rfind filter readfile curpath) (ex_main_d_erase rvalid rfind filter readfile curpath)). Qed.
+Print Assumptions C15_depth_trace_erasure.
+
+(* EVERY DEPTH HANDED TO lbuf_globset / lbuf_globget IS ONE OF 1..7: for any script (ex_main) and any command line with any
+   rest (ex_exec), from ANY state -- in particular from every state reachable from one with xgdep = 0; the guard is tested
+   where the depth is computed, so no invariant of the reachable states is needed.  1 << dep therefore fits the char of
+   ln_glob[] in every call (the hypothesis `dep <= 7` of C15_tr_lbuf_globset / C15_tr_lbuf_globget). *)
+Theorem C15_mark_depths_between_1_and_7 : forall rvalid rfind filter readfile curpath,
+  (forall n fuel s, Forall (fun d => (1 <= d <= 7)%N) (snd (ex_main_d rvalid rfind filter readfile curpath n fuel s))) /\
+  (forall fuel ret ln s, Forall (fun d => (1 <= d <= 7)%N) (snd (ex_exec_d rvalid rfind filter readfile curpath fuel ret ln s))).
+Proof. exact (fun rvalid rfind filter readfile curpath =>
+  conj (ex_main_d_ok rvalid rfind filter readfile curpath) (ex_exec_d_ok rvalid rfind filter readfile curpath)). Qed.
+Print Assumptions C15_mark_depths_between_1_and_7.
+
+(* A GLOBAL AT LEVEL 8 FAILS WITHOUT TOUCHING LINES OR MARKS: started inside seven enclosing globals (xgdep >= 7) it returns 1
+   and the state is the old one plus the message -- whatever the address, the pattern, the command list and the executor *)
+Theorem C15_global_at_level_8_refused : forall rvalid rfind exec fuel loc cmd arg s, (7 <= xgdep s)%nat ->
+  ec_glob rvalid rfind exec fuel loc cmd arg s = (emit s (OMsg M_GDEEP), 1%Z) /\
+  lb (emit s (OMsg M_GDEEP)) = lb s /\ xrow (emit s (OMsg M_GDEEP)) = xrow s /\ xgdep (emit s (OMsg M_GDEEP)) = xgdep s.
+Proof. exact (fun rvalid rfind exec fuel loc cmd arg s H =>
+  conj (glob_too_deep rvalid rfind exec fuel loc cmd arg s H) (conj eq_refl (conj eq_refl eq_refl))). Qed.
+Print Assumptions C15_global_at_level_8_refused.
+
+(* the model's limit is the constant of the C text (GenConsts.GLOB_DEPMAX is regenerated from ec_glob of /repo/ex.c on every run;
+   a tree without the guard yields 2^30 and this proof fails) *)
+Theorem C15_nesting_limit_is_the_C_constant : Z.of_nat GDEPMAX = GLOB_DEPMAX.
+Proof. exact gdepmax_is_c. Qed.
+Print Assumptions C15_nesting_limit_is_the_C_constant.
+
+(* the two inputs that found the defect, on the model (pattern a on a1..a4; k = 7 / 8 times `g/a/` in front of `%g/a/p` = 8 / 9
+   levels): the script ends at the end of its input (no fuel exhaustion), the four depth-7 executions are refused with the
+   message, p never runs, lines and marks are those of the file just read, the deepest depth used is 7; with 7 levels p runs
+   16 times *)
+Example C15_nesting_nonvacuous : forall k, k = 7%nat \/ k = 8%nat ->
+  out (fst (deep_run k)) = repeat (OMsg M_GDEEP) 4 /\ flags (fst (deep_run k)) = F_EOF /\
+  lns (lb (fst (deep_run k))) = lns (init_lbuf [97;49;10;97;50;10;97;51;10;97;52;10]%N) /\
+  fold_right N.max 0%N (snd (deep_run k)) = 7%N /\
+  length (List.filter is_line (out (fst (deep_run 6)))) = 16%nat.
+Proof. exact deep_example. Qed.
+
+(* ... so the translation theorems apply to every call the interpreter makes: for every depth of the trace of any script from
+   any state, lbuf_globset / lbuf_globget of /repo/lbuf.c (CLite translation) compute what the model computes *)
+From NV Require GlobDepthTr.
+Section C15_translated_depths.
+Import CLite CLiteProps GenCFuncs TrLbufBase TrLbufGlob GlobDepthTr.
+Theorem C15_mark_depths_meet_translation_hypothesis : forall rvalid rfind filter readfile curpath n fuel s dep,
+  In dep (snd (ex_main_d rvalid rfind filter readfile curpath n fuel s)) ->
+  forall m bl blk bg gblk (l : ExDefs.lbuf) pos x d cf,
+  nth_error m bl = Some blk -> nth_error blk L_ln_glob = Some (VPtr bg 0) -> glob_rep m bg gblk (ExDefs.lns l) ->
+  nth_error (ExDefs.lns l) pos = Some x ->
+  (let gblk' := upd gblk pos (VInt (sb (N.setbit (ExDefs.lgl x) dep))) in
+   callf cprog cf (S d) F_lbuf_globset [VPtr bl 0; VInt (Z.of_nat pos); VInt (Z.of_N dep)] m = Ok (VUndef, upd m bg gblk')
+   /\ glob_rep (upd m bg gblk') bg gblk' (ExDefs.lns (ExDefs.lbuf_globset l pos dep))) /\
+  (let gblk' := upd gblk pos (VInt (sb (N.clearbit (ExDefs.lgl x) dep))) in
+   callf cprog cf (S d) F_lbuf_globget [VPtr bl 0; VInt (Z.of_nat pos); VInt (Z.of_N dep)] m
+     = Ok (VInt (b2z (snd (ExDefs.lbuf_globget l pos dep))), upd m bg gblk')
+   /\ glob_rep (upd m bg gblk') bg gblk' (ExDefs.lns (fst (ExDefs.lbuf_globget l pos dep)))).
+Proof. exact depths_translated. Qed.
+Print Assumptions C15_mark_depths_meet_translation_hypothesis.
+End C15_translated_depths.
